@@ -22,7 +22,8 @@ use lumina_node::verif::p2p::header_ex::{client, utils};
 use lumina_node::verif::p2p::header_session as hs;
 use verif_harness::*;
 
-const CHAIN: u64 = 720;
+// S10: 2700 (was 720) so that 2000+ header ranges can be served
+const CHAIN: u64 = 2700;
 const PEER_CAP: u64 = 512;
 const HIGH_START: u64 = (i64::MAX as u64) - 30;
 
@@ -238,12 +239,15 @@ impl Prop for C27 {
     }
     fn rule(&self) -> &'static str {
         "One op = one complete call of the real P2p::get_verified_headers_range against a simulated header-ex client \
-         (real is_valid gate + real decode_and_verify_responses over real encoded headers of a 720-header chain), \
+         (real is_valid gate + real decode_and_verify_responses over real encoded headers of a 2700-header chain), \
          hand-polled, with the answering order and the per-answer peer behaviour (full / at most k / NOT_FOUND / INVALID; S9: `Ok(vec![])` handed \
          to the session directly, and a dropped responder = non-HeaderEx error) \
          given by cyclic patterns in the op and a step budget that turns a hang into the outcome `hang`. Amounts 0, \
          1..600 (quick: a sample; thorough: every amount) served fully and by truncating-but-progressing peers, amounts at and around the u64 overflow boundary for small and \
-         near-i64::MAX start heights, `from` valid / invalidated / from another chain, chains shorter than the request. \
+         near-i64::MAX start heights, `from` valid / invalidated / from another chain, chains shorter than the request; S10 size-threshold \
+         amounts (tags thr/…) 55..57, 255..257, 503..505, 519..521, 575..577, 1023..1025, 2000, 2001, 2047..2049, 2600 (batch-size clamp \
+         boundaries, 8/9 batches of 64, powers of two +-1, 2000+ headers) served fully, by peers truncating at 63/64/65/511/512/513 headers, \
+         and from chains ending at / just below the top of the range. \
          Non-trivial = every op; distinct = distinct (op, result) lines."
     }
     fn gen_ops(&mut self, rng: &mut Rng, tier: Tier, out: &mut Emitter) {
@@ -378,6 +382,39 @@ impl Prop for C27 {
                 tag,
                 true,
             );
+        }
+        // S10 size-threshold stress: amounts straddling every boundary of the session's batch-size clamp
+        // (ceil(n/8) clamped to 8..=64: 56/57, 64/65, 504/505, 512/513), of the 8 concurrent requests (8*64, 9*64),
+        // of the peer's 512-header answer cap, powers of two +-1 and 2000+ headers: served fully, by peers that
+        // truncate at 63/64/65/511/512/513 headers, and from chains that end exactly at / one short of the range
+        let thr: [u64; 24] = [
+            55, 56, 57, 255, 256, 257, 503, 504, 505, 519, 520, 521, 575, 576, 577, 1023, 1024, 1025, 2000, 2001, 2047, 2048, 2049, 2600,
+        ];
+        for (k, &amount) in thr.iter().enumerate() {
+            let from = rng.range(1, 60);
+            out.op(
+                format!("gvr from={from} fromkind=ok amount={amount} chain={CHAIN} order={} beh=f fuel={}", pat(rng), amount + rng.below(3)),
+                "thr/served",
+                true,
+            );
+            if thorough || k % 3 == 0 {
+                let behs: Vec<String> =
+                    (0..rng.range(1, 4)).map(|_| format!("p{}", *rng.pick(&[63u64, 64, 65, 511, 512, 513]))).collect();
+                out.op(
+                    format!("gvr from={from} fromkind=ok amount={amount} chain={CHAIN} order={} beh={} fuel={}", pat(rng), behs.join(","), amount + rng.below(3)),
+                    "thr/served-truncating",
+                    true,
+                );
+            }
+            if thorough || k % 3 == 1 {
+                // the served chain ends exactly at the top of the range / one or two headers short of it
+                let chain = from + amount - rng.below(3);
+                out.op(
+                    format!("gvr from={from} fromkind=ok amount={amount} chain={chain} order={} beh=f fuel={}", pat(rng), rng.range(60, 400)),
+                    "thr/short-chain",
+                    true,
+                );
+            }
         }
         if !pool().high.is_empty() {
             for _ in 0..(if thorough { 40 } else { 8 }) {
